@@ -126,9 +126,10 @@ func (i *Interpreter) eval(expr ast.Expr, env *environment.Environment, isRepl b
 	case *ast.ObjectLiteral:
 		properties := make(map[string]interface{})
 
-		// Evaluate the property values in source order
-		for _, key := range e.Keys {
-			value, signal := i.eval(e.Properties[key], env, isRepl)
+		// Evaluate every initialiser in source order; when a name is written
+		// more than once the last one gives the value
+		for n, key := range e.Keys {
+			value, signal := i.eval(e.Values[n], env, isRepl)
 			if signal.Type != ControlFlowNone {
 				return nil, signal
 			}
